@@ -664,21 +664,8 @@ impl<'a> Lexer<'a> {
                     self.current_characters.push(c);
 
                     // could've arrived here by passing through whitespace state
-                    // check len of characters so see if 2 tokens need to be created
-                    if self.current_characters.len() > 2 {
-                        trace!("Creating whitespace token from extra characters");
-                        // have extra characters, split them into a whitespace token
-                        let spaces_characters = &self.current_characters[..self.current_characters.len() - 2];
-                        next_token = Some(LexerToken::new(
-                            spaces_characters.to_string(),
-                            TokenType::Whitespace,
-                            self.token_start_row,
-                            // actual token is determined after current, minus 1 to make accurate
-                            self.token_start_column,
-                        ));
-
-                        self.current_characters = self.current_characters[(self.current_characters.len() - 2)..].to_string();
-                    }
+                    // spaces before the first new line stay part of this token, same as spaces between the new lines
+                    self.current_token_type = Some(TokenType::Subexpression);
 
                     // wrap coordinates to new line
                     self.text_column = 0;
